@@ -1156,6 +1156,9 @@ int main(int argc, char** argv) {
                     // an integer array is unavailable when some active cell is undefined in the library
                     int cu = c0;
                     for (int c = 0; c < cs.N; ++c) if (A.actnum[c] && expectActive[c] && r.topsrc[c] >= 0 && !cs.eff[r.topsrc[c]]) cu = c;
+                    // ... or a cell that only a region operation defines (known finding: those are skipped for integer arrays), seen in the
+                    // thorough tier for an array without default (MISCNUM given in a one-cell BOX, the other cell by EQUALREG)
+                    if (k.isInt) for (int c = 0; c < cs.N; ++c) if (A.actnum[c] && expectActive[c] && r.lastop[c] >= 0 && cs.ops[r.lastop[c]].kind == K_REGSCALAR) cu = c;
                     std::string what = std::string(k.name) + " is not available from the library although the reference defines it in every active cell";
                     rep.violation(keyOf(classify(cu, "array-unavailable")), what, witness(what));
                     continue;
